@@ -30,6 +30,7 @@ type SpecEnv struct {
 	contract *Contract
 	assuming bool   // evaluating a callee's contract at a call site (ensures are assumed)
 	fr       *Frame // loop invariants / asserts: access to source-level names
+	loopOld  *State // loop invariants: the state in which the loop was entered (loopentry(e))
 	depth    int
 }
 
@@ -630,6 +631,17 @@ func (ev *SpecEnv) callExpr(x *ast.CallExpr) (Val, types.Type) {
 		need(1)
 		sub := *ev
 		sub.st = ev.heapState(true)
+		sub.old = nil
+		return sub.eval(x.Args[0])
+	case "loopentry":
+		// loopentry(e) in a loop invariant: e evaluated in the memory of the moment the loop was entered (for data
+		// that did not exist at function entry, where old(e) cannot be used); local names keep their current values
+		need(1)
+		if ev.loopOld == nil {
+			ev.fail("loopentry() outside a loop invariant")
+		}
+		sub := *ev
+		sub.st = ev.loopOld
 		sub.old = nil
 		return sub.eval(x.Args[0])
 	case "pow2":
